@@ -303,7 +303,7 @@ if __name__ == "__main__":
 from fractions import Fraction
 import random
 
-ORACLE_KINDS = ("sqrt", "sin", "cos", "tan", "asin", "acos", "atan", "atan2", "rem")
+ORACLE_KINDS = ("sqrt", "sin", "cos", "tan", "asin", "acos", "atan", "atan2")
 EPS = Fraction(1, 2 ** 52)
 
 
@@ -339,6 +339,14 @@ def eval_nodes(nodes, xs):
                     v = a * b
                 else:
                     v = None if b == 0 else a / b
+            elif k == "rem":
+                a, b = vals[n[1]], vals[n[2]]
+                if a is None or not b:
+                    v = None
+                else:
+                    q = a / b            # truncated remainder (fmod): a - b * trunc(a / b)
+                    t = q.numerator // q.denominator if q >= 0 else -((-q.numerator) // q.denominator)
+                    v = a - b * t
             else:
                 v = None
         except (TypeError, ZeroDivisionError):
